@@ -112,4 +112,175 @@ theorem lzip_fast_file_roundtrip_generated (o : LzipOpts) (ho : o.bt4 = false) (
   lzip_fast_file_roundtrip_exact genConsts Props.C01Mf.generated_hc4_params_ok Props.C01Fast.generated_fast_params_ok
     o ho hn d hsz
 
+/-! ## (W2) `.lzma` with header -/
+
+theorem header_length (o : FastOpts) (expected : Option Nat) : (header o expected).length = 13 := by
+  rw [header_eq]; rfl
+
+/-- the dictionary buffer the reader derives from the header holds every distance the encoder can use -/
+theorem aloneDictBuf_ge (o : FastOpts) (hd1 : 1 ≤ o.dict) (hd2 : o.dict ≤ 2 ^ 30) (expected : Option Nat) (n : Nat)
+    (he : expected = some n ∨ expected = none) : min o.dict n ≤ aloneDictBuf o expected := by
+  have hh := (hdrDict_bounds o.dict hd1 hd2).1
+  have hnone := le_readerDictBuf_none (hdrDict o.dict)
+  unfold aloneDictBuf
+  rcases he with rfl | rfl
+  · simp only [Option.getD_some]
+    by_cases hn : n ≤ 2 ^ 63 - 1
+    · rw [if_pos hn]
+      have := Props.C01Fast.readerDictBuf_ge (hdrDict o.dict) n
+      omega
+    · rw [if_neg hn]; omega
+  · simp only [Option.getD_none]
+    rw [if_neg (by omega)]; omega
+
+/-- **(W2), declared size** (`LZMAWriter::new_use_header(out, opts, Some(data.len()))`): the reader model, which takes
+    lc/lp/pb, dictionary size and size from the header, returns exactly the data and consumes exactly the file -/
+theorem lzma_alone_fast_roundtrip_size (K : MfConsts) (hH : K.hc4.ok) (hP : K.fast.ok)
+    (o : FastOpts) (ho : o.bt4 = false) (hv : o.valid = true) (d : Array UInt8) (hsz : d.size < 2 ^ 64 - 1)
+    (rest : List Nat) (cap : Nat) :
+    ∃ bytes, lzmaAloneFastBytes K o false (some d.size) d = some bytes ∧
+      decodeAlone #[] (bytes ++ rest) cap = .ok (d.map (fun b => b.toNat)) bytes.length (fastParseOf K o d) := by
+  obtain ⟨_, ⟨hd1, hd2⟩, _⟩ := (valid_iff o).mp hv
+  obtain ⟨raw, hraw, hdec⟩ := rawBytes_size_rt o.params K hH hP o ho (aloneDictBuf o (some d.size)) d (by omega)
+    (aloneDictBuf_ge o (by omega) (by omega) _ d.size (Or.inl rfl)) (by omega) rest cap
+  refine ⟨header o (some d.size) ++ raw, ?_, ?_⟩
+  · simp [lzmaAloneFastBytes, hv, hraw]
+  · rw [List.append_assoc, decodeAlone_header o hv (some d.size) (by simp only [Option.getD_some]; omega)]
+    simp only [Option.getD_some]
+    rw [if_neg (by omega), hdec, List.length_append, header_length]
+    simp only [Nat.add_comm]
+
+/-- **(W2), end marker** (`LZMAWriter::new_use_header(out, opts, None)`: size field `u64::MAX`, end marker) -/
+theorem lzma_alone_fast_roundtrip_marker (K : MfConsts) (hH : K.hc4.ok) (hP : K.fast.ok)
+    (o : FastOpts) (ho : o.bt4 = false) (hv : o.valid = true) (d : Array UInt8) :
+    ∃ bytes, lzmaAloneFastBytes K o true none d = some bytes ∧
+      ∀ (rest : List Nat) (cap : Nat), d.size ≤ cap →
+        decodeAlone #[] (bytes ++ rest) cap
+          = .ok (d.map (fun b => b.toNat)) bytes.length (fastParseOf K o d ++ [endMarker]) := by
+  obtain ⟨_, ⟨hd1, hd2⟩, _⟩ := (valid_iff o).mp hv
+  have hbuf : aloneDictBuf o none ≤ END_DIST := by
+    have := (hdrDict_bounds o.dict (by omega) (by omega)).2
+    simp only [aloneDictBuf, Option.getD_none, lzmaReaderDictBuf, lzmaDictBuf, END_DIST]
+    rw [if_neg (by omega)]
+    simp only
+    omega
+  obtain ⟨raw, hraw, hdec⟩ := rawBytes_marker_rt o.params K hH hP o ho (aloneDictBuf o none) d (by omega)
+    (aloneDictBuf_ge o (by omega) (by omega) _ d.size (Or.inr rfl)) (by omega) hbuf
+  refine ⟨header o none ++ raw, ?_, ?_⟩
+  · simp [lzmaAloneFastBytes, hv, hraw]
+  · intro rest cap hcap
+    rw [List.append_assoc, decodeAlone_header o hv none (by simp only [Option.getD_none]; omega)]
+    simp only [Option.getD_none, if_true]
+    rw [hdec rest cap hcap, List.length_append, header_length]
+    simp only [Nat.add_comm]
+
+/-- the writer refuses options out of range and a declared size that differs from the number of bytes written -/
+theorem lzma_alone_refuses (K : MfConsts) (o : FastOpts) (marker : Bool) (expected : Option Nat) (d : Array UInt8)
+    (h : o.valid = false ∨ ∃ e, expected = some e ∧ e ≠ d.size) : lzmaAloneFastBytes K o marker expected d = none := by
+  rcases h with h | ⟨e, rfl, hne⟩
+  · simp [lzmaAloneFastBytes, h]
+  · cases hv : o.valid <;> simp [lzmaAloneFastBytes, hv, hne]
+
+/-! ## (W3) raw LZMA1 streams (`new_no_header`) -/
+
+/-- **(W3), no end marker**; the reader is `LZMAReader::new(.., data.len(), lc, lp, pb, dict_size, None)` -/
+theorem lzma_raw_fast_roundtrip_size (K : MfConsts) (hH : K.hc4.ok) (hP : K.fast.ok)
+    (o : FastOpts) (ho : o.bt4 = false) (hv : o.valid = true) (d : Array UInt8) (rest : List Nat) (cap : Nat) :
+    ∃ bytes, lzmaRawFastBytes K o false d = some bytes ∧
+      decodeRaw o.params (lzmaReaderDictBuf o.dict (some d.size) 0) #[] (some d.size) (bytes ++ rest) cap
+        = .ok (d.map (fun b => b.toNat)) bytes.length (fastParseOf K o d) := by
+  obtain ⟨_, ⟨hd1, hd2⟩, _⟩ := (valid_iff o).mp hv
+  obtain ⟨raw, hraw, hdec⟩ := rawBytes_size_rt o.params K hH hP o ho (lzmaReaderDictBuf o.dict (some d.size) 0) d
+    (by omega) (Props.C01Fast.readerDictBuf_ge o.dict d.size) (by omega) rest cap
+  exact ⟨raw, by simp [lzmaRawFastBytes, hv, hraw], hdec⟩
+
+/-- **(W3), end marker**; the reader is `LZMAReader::new(.., u64::MAX, lc, lp, pb, dict_size, None)` -/
+theorem lzma_raw_fast_roundtrip_marker (K : MfConsts) (hH : K.hc4.ok) (hP : K.fast.ok)
+    (o : FastOpts) (ho : o.bt4 = false) (hv : o.valid = true) (d : Array UInt8) :
+    ∃ bytes, lzmaRawFastBytes K o true d = some bytes ∧
+      ∀ (rest : List Nat) (cap : Nat), d.size ≤ cap →
+        decodeRaw o.params (lzmaReaderDictBuf o.dict none 0) #[] none (bytes ++ rest) cap
+          = .ok (d.map (fun b => b.toNat)) bytes.length (fastParseOf K o d ++ [endMarker]) := by
+  obtain ⟨_, ⟨hd1, hd2⟩, _⟩ := (valid_iff o).mp hv
+  have hbuf : lzmaReaderDictBuf o.dict none 0 ≤ END_DIST := by
+    simp only [lzmaReaderDictBuf, lzmaDictBuf, END_DIST]; omega
+  have hge := le_readerDictBuf_none o.dict
+  obtain ⟨raw, hraw, hdec⟩ := rawBytes_marker_rt o.params K hH hP o ho (lzmaReaderDictBuf o.dict none 0) d
+    (by omega) (by omega) (by omega) hbuf
+  exact ⟨raw, by simp [lzmaRawFastBytes, hv, hraw], hdec⟩
+
+/-- (W2) for the parameters regenerated from the source -/
+theorem lzma_alone_fast_roundtrip_generated (o : FastOpts) (ho : o.bt4 = false) (hv : o.valid = true)
+    (d : Array UInt8) (hsz : d.size < 2 ^ 64 - 1) (rest : List Nat) (cap : Nat) (hcap : d.size ≤ cap) :
+    (∃ bytes, lzmaAloneFastBytes genConsts o false (some d.size) d = some bytes ∧
+      decodeAlone #[] (bytes ++ rest) cap = .ok (d.map (fun b => b.toNat)) bytes.length (fastParseOf genConsts o d)) ∧
+    (∃ bytes, lzmaAloneFastBytes genConsts o true none d = some bytes ∧
+      decodeAlone #[] (bytes ++ rest) cap
+        = .ok (d.map (fun b => b.toNat)) bytes.length (fastParseOf genConsts o d ++ [endMarker])) := by
+  have hH := Props.C01Mf.generated_hc4_params_ok
+  have hP := Props.C01Fast.generated_fast_params_ok
+  refine ⟨lzma_alone_fast_roundtrip_size genConsts hH hP o ho hv d hsz rest cap, ?_⟩
+  obtain ⟨bytes, hb, h⟩ := lzma_alone_fast_roundtrip_marker genConsts hH hP o ho hv d
+  exact ⟨bytes, hb, h rest cap hcap⟩
+
+/-! ## non-vacuity -/
+
+/-- "HiHiHi" -/
+def w0 : Array UInt8 := #[72, 105, 72, 105, 72, 105]
+
+/-- the hypotheses are satisfiable: the theorems instantiated at the real constants (defaults of `MfConsts` = the
+    current source) and at concrete options: off-grid dictionary 5000, `member_size = 1` (raised to the dictionary
+    size), the 26-byte sample of `C01Fast` -/
+example := lzip_fast_file_roundtrip {} (by decide) (by decide) { dict := 5000, nice := 32, memberSize := some 1 } rfl
+  (by decide) Props.C01Fast.w1 (by decide)
+example := lzip_fast_file_roundtrip_generated { dict := 65536, nice := 273, depth := 48 } rfl (by decide) w0 (by decide)
+example := lzma_alone_fast_roundtrip_size {} (by decide) (by decide) { dict := 5000, lc := 3, lp := 0, pb := 2, nice := 32 }
+  rfl (by decide) Props.C01Fast.w1 (by decide) [1, 2, 3] 100
+example := lzma_alone_fast_roundtrip_marker {} (by decide) (by decide) { dict := 4096, lc := 8, lp := 4, pb := 4, nice := 8 }
+  rfl (by decide) Props.C01Fast.w1
+example := lzma_raw_fast_roundtrip_marker {} (by decide) (by decide) { dict := 4096, lc := 0, lp := 0, pb := 0, nice := 273 }
+  rfl (by decide) w0
+
+/-- the small hash tables of `Hc4.tinyHash`, so that the kernel can evaluate whole runs of the writer models -/
+def tiny : MfConsts := { hc4 := { hash := Hc4.tinyHash } }
+
+/-- … and the pieces of the conclusions are attained by the executable models (whole files are evaluated by the
+    compiled driver against the real writers on every run; in the kernel the probability arrays make that slow):
+    the parse of "HiHiHi" under the options `LZIPWriter` passes on … -/
+example : fastParseOf tiny (lzmaOpts { dict := 100, nice := 32 }) w0 = [.lit 72, .lit 105, .mtch 1 4] := by
+  decide +kernel
+
+/-- … the dictionary byte: 100 is clamped to 4096 (byte 12), 5000 is announced as 5120 = 2^13 - 6 * 2^9 -/
+example : Lzip.encodeDict (effDict { dict := 100, nice := 32 }) = some 12 ∧
+    Lzip.encodeDict (effDict { dict := 5000, nice := 32 }) = some (6 * 32 + 13) ∧
+    Lzip.decodeDict (6 * 32 + 13) = some 5120 := by decide +kernel
+
+/-- … the splitter: 10 000 bytes, `member_size = 1` raised to the dictionary size 4096: three members;
+    an empty input still gives one (empty) member; without `member_size` one member -/
+example : memberSizes { dict := 100, nice := 32, memberSize := some 1 } 10000 = [4096, 4096, 1808] ∧
+    memberSizes { dict := 100, nice := 32, memberSize := some 1 } 0 = [0] ∧
+    memberSizes { dict := 100, nice := 32 } 10000 = [10000] := by decide +kernel
+
+/-- … the layout of one member around its stream (the 39 bytes the real `LZIPWriter` writes for "HiHiHi") -/
+example : memberBytes 12 [0x00, 0x24, 0x1a, 0x5e, 0x06, 0x10, 0x7b, 0xdf, 0xff, 0xfe, 0xf8, 0x40, 0x00] (bytesOf w0) =
+    [0x4c, 0x5a, 0x49, 0x50, 0x01, 0x0c, 0x00, 0x24, 0x1a, 0x5e, 0x06, 0x10, 0x7b, 0xdf, 0xff, 0xfe, 0xf8, 0x40, 0x00,
+     0x12, 0xa0, 0x83, 0xd3, 0x06, 0, 0, 0, 0, 0, 0, 0, 0x27, 0, 0, 0, 0, 0, 0, 0] := by decide +kernel
+
+/-- … the `.lzma` header for lc/lp/pb = 3/0/2, dictionary 5000 (announced as 6144 = 2^12 + 2^11), declared size 6 /
+    no declared size -/
+example : header { dict := 5000, lc := 3, lp := 0, pb := 2, nice := 32 } (some 6) =
+      [0x5d, 0x00, 0x18, 0x00, 0x00, 6, 0, 0, 0, 0, 0, 0, 0] ∧
+    header { dict := 5000, lc := 3, lp := 0, pb := 2, nice := 32 } none =
+      [0x5d, 0x00, 0x18, 0x00, 0x00, 0xff, 0xff, 0xff, 0xff, 0xff, 0xff, 0xff, 0xff] := by decide +kernel
+
+/-- the hypotheses matter: `nice_len = 7` is refused (`LZMAOptions::validate`), a wrong declared size is refused -/
+example : lzipFastBytes tiny { dict := 4096, nice := 7 } w0 = none ∧
+    lzmaAloneFastBytes tiny { dict := 5000, lc := 3, lp := 0, pb := 2, nice := 32 } false (some 5) w0 = none := by
+  decide +kernel
+
+/-- the header dictionary size: 2^n or 2^n + 2^(n-1), never below the encoder's -/
+example : hdrDict 4096 = 4096 ∧ hdrDict 4097 = 6144 ∧ hdrDict 5000 = 6144 ∧ hdrDict 6145 = 8192 ∧
+    hdrDict (768 * 1024 * 1024) = 768 * 1024 * 1024 ∧ hdrDict (768 * 1024 * 1024 + 1) = 2 ^ 30 ∧
+    hdrDict (2 ^ 32 - 16) = 2 ^ 32 - 1 := by decide +kernel
+
 end LzmaVerif.Props.C02Fast
